@@ -41,6 +41,8 @@ fixed("C10", "7d63d2a", "no blank line before the next list item after an item e
 fixed("C04", "413e056", "an inline link title containing a backslash followed by a double quote (or ending in a backslash) broke the link: found by the CrossHair title kernel, reproduced", "kernel[k_title]")
 fixed("C01", "bb2b1ae", "an alert nested in a list item or in another quote lost its container prefix (header emitted at column 0): the alert left its container (pointed out by a sub-agent while seeding faults; skeletons added)", "block[alert-in-list]/shape")
 fixed("C01", "c6214be", "a table inside a list item or block quote was rendered at column 0 and left its container", "block[table-in-list]/shape")
+fixed("C01", "e6efcc2", "the separator line of a loose list inside a quote inside a list item (or footnote) was built with strip(): '- a / (blank) /   > - x /   > / (two spaces)> - y' came out with a bare '>' at column 0, which ends the outer item (also C02)", "block[loose-list-in-quote-in-item]/shape")
+fixed("C01", "dd9e149", "empty list items were dropped: '1. a / 2. / 3. b' -> '1. a / 3. b' (and renumbered on the next run, C02)", "block[empty-item]/shape:+/-item")
 fixed("C06", "a81efe7", "no blank line before a closing tag after a list item that wraps or has a continuation line: the tag was read as part of the item on the next run (also C01/C02)", "tagblock[cont-before-close-*]/tagblock:blank-line-separated")
 fixed("C17", "fa95314", "directory traversal followed symlinks to files (targets outside the tree or inside excluded directories were listed); glob arguments skipped excluded directories and .flowmarkignore", "dir/unwanted[reached-via-file-link]")
 
@@ -100,6 +102,21 @@ known("C03", "tag-newline/history:rebreak",
 known("C03", "tag-newline/history:content", "same mechanism (line structure around the tag differs)")
 known("C03", "heading-or-table-row/relayout:space-runs",
       "headings and table cells are not re-flowed, so runs of spaces inside them survive: '## a   b' and '| b   c |' are output as is (in any container). Not repaired: would change heading/table rendering broadly.")
+
+# ---------------------------------------------------------------- known: footnote-first-line-list, heading-then-block-in-tight-item
+_FN = ("a list that starts on the label line of a footnote definition ('[^1]: - b' / '    - c' / '' / '    d'): Marko (the parser flowmark uses) reads 4-space-indented continuation lines as "
+       "belonging to the first item, the renderer writes them at the item's content indent (6 spaces, correct by CommonMark + GFM footnotes), and Marko then reads that output differently again "
+       "(the paragraph moves into the nested item): reformat_text twice gives a different document. The cause is the indentation handling of Marko's footnote extension; no small repair in flowmark.")
+for _p, _k in [("C01", "shape:same-kinds:text-or-attr"), ("C02", "idempotent:rebreak"), ("C02", "idempotent:space-runs"), ("C02", "idempotent:blank-lines"), ("C02", "idempotent:content"),
+               ("C03", "history:rebreak"), ("C03", "history:blank-lines"), ("C03", "history:content"), ("C03", "history:space-runs"),
+               ("C10", "list-spacing:preserve-as-authored"), ("C10", "list-spacing:structure:loose"), ("C10", "list-spacing:structure:preserve"), ("C10", "list-spacing:structure:tight"),
+               ("C10", "list-spacing:tight-only-single-block-lists")]:
+    known(_p, f"footnote-first-line-list/{_k}", _FN)
+_HB = ("a heading is always followed by a blank line; directly inside an item of a tight list that holds a further block ('- ## a' / '  - b' / '- c') that blank line makes the list loose for the next "
+       "run, which then separates the items as well: '- ## a\\n\\n  - b\\n- c\\n' -> '- ## a\\n\\n  - b\\n\\n- c\\n'. A repair needs the renderer to know that a heading is a direct child of a "
+       "tight item and not its last block (Marko elements carry no parent link): not small.")
+for _p, _k in [("C02", "idempotent:blank-lines"), ("C03", "history:blank-lines")]:
+    known(_p, f"heading-then-block-in-tight-item/{_k}", _HB)
 
 # ---------------------------------------------------------------- known: C06
 known("C06", "sentence-end-inside-construct/atomic:words",
